@@ -104,3 +104,86 @@ Proof.
   - eexists. rewrite aget_aput, Z.eqb_refl. split; [reflexivity|]. split; reflexivity.
   - intros b Hb. rewrite aget_aput. destruct (b =? id) eqn:Eb; [lia|reflexivity].
 Qed.
+
+Lemma settled_dropped : forall id s s1 o, settled id s s1 o -> dropped id s s1 o.
+Proof.
+  intros id s s1 o (A & B & C & D & E). split; [exact A|]. split; [exact B|]. split; [right; exact C|]. split; [|exact E].
+  intros a1 Ha. left. apply D. exact Ha.
+Qed.
+
+(* every incoming Call: delivered in its own handler as the next delivery, or appended to the END of
+   the answer queue (only when its target is an answer without results), or never delivered *)
+Lemma call_sync : forall id tg params tc mok tag s s1 o ab,
+  handle_call cfg_fixed id tg params tc mok tag s = Ok (s1, o, ab) ->
+  (exists j, delivered id j tag s s1 o /\ tgt_returned tg s) \/
+  (exists t x, parse_target tg = Some (PAns t x) /\ enqueued id t x tag s s1 o) \/
+  dropped id s s1 o.
+Proof.
+  intros id tg params tc mok tag s s0 o0 ab H. unfold handle_call in H.
+  assert (SAME : dropped id s s nil).
+  { split; [reflexivity|]. split; [reflexivity|]. split; [left; reflexivity|]. split; [intros a1 Ha; right; exact Ha|intros b _; reflexivity]. }
+  destruct tc; simpl negb in H; cbv iota in H.
+  2:{ inversion H; subst. right; right. destruct SAME as (_ & B & C & D & E). split; [reflexivity|]. repeat split; assumption. }
+  destruct (aget id (s_ans s)) eqn:Eid; [inversion H; subst; right; right; exact SAME|].
+  match type of H with (bind ?r _) = _ => destruct r as [[[s1 parsed] tor]| |] eqn:EP; cbn [bind] in H; try discriminate end.
+  assert (CA : core_of s1 = core_of s /\ aux_of s1 = aux_of s).
+  { destruct params as [p|]; [|inversion EP; split; reflexivity].
+    pose proof (recv_payload_core cfg_fixed p s) as C. pose proof (aux_recv_payload cfg_fixed p s) as A.
+    destruct (recv_payload cfg_fixed p s) as [sa k tab loc|sa part].
+    - destruct (parse_target tg); inversion EP; subst; split; assumption.
+    - rewrite payload_err_fixed in EP. simpl in EP. inversion EP; subst. split; assumption. }
+  destruct CA as [C A]. destruct (core_ans _ _ C) as (A1 & Q1 & S1). destruct (ndeliv_aux _ _ A) as [N1 _].
+  (* everything below starts from s1, which has the answers, queue and delivery counter of s *)
+  assert (LS : forall o, settled id s1 s0 o -> dropped id s s0 o).
+  { intros o (a & b & c & d & e). apply settled_dropped. split; [exact a|]. split; [congruence|]. split; [congruence|]. split; [exact d|].
+    intros b' Hb. rewrite (e b' Hb), A1. reflexivity. }
+  assert (LD : forall j o, delivered id j tag s1 s0 o -> delivered id j tag s s0 o).
+  { intros j o (a & b & c & d & e). split; [congruence|]. split; [congruence|]. split; [congruence|]. split; [rewrite <- N1; exact d|].
+    intros b' Hb. rewrite (e b' Hb), A1. reflexivity. }
+  destruct parsed as [[pt tab]|].
+  2:{ cbn [fx15 cfg_fixed negb] in H.
+      destruct (send_exception cfg_fixed id (new_answer [] mok tag) s1) as [[[s2 o2] b2]| |] eqn:E2; cbn [bind] in H; try discriminate.
+      destruct (release_caps cfg_fixed tor s2) as [[s3 o3]| |] eqn:E3; cbn [bind] in H; try discriminate. inversion H; subst.
+      pose proof (nod_release_caps _ _ _ _ _ E3) as N3. pose proof (aux_release_caps _ _ _ _ _ E3) as X3.
+      apply release_caps_inv in E3. destruct E3 as [C3 _]. destruct (core_ans _ _ C3) as (A3 & Q3 & _). destruct (ndeliv_aux _ _ X3) as [N3' _].
+      pose proof (nod_send_exception _ _ _ _ _ _ _ E2) as N2. pose proof (aux_send_exception _ _ _ _ _ _ _ E2) as X2. destruct (ndeliv_aux _ _ X2) as [N2' _].
+      destruct (send_exception_q _ _ _ _ _ _ E2) as (q1 & q2 & q3).
+      right; right. apply LS. split; [apply nod_app; assumption|]. split; [congruence|]. split; [congruence|]. split.
+      - intros a1 Ha. rewrite A3 in Ha. apply q2. exact Ha.
+      - intros b Hb. rewrite A3. apply q3. exact Hb. }
+  assert (PT : parse_target tg = Some pt).
+  { destruct params as [p|]; [|inversion EP]. destruct (recv_payload cfg_fixed p s) as [sa k tab' loc|sa part].
+    - destruct (parse_target tg); inversion EP; subst; reflexivity.
+    - rewrite payload_err_fixed in EP. simpl in EP. inversion EP. }
+  assert (UNK : forall o2, (do '(s2, o2) <- release_caps cfg_fixed tab (set_ans (aput id placeholder (s_ans s1)) s1); Ok (s2, o2, true)) = Ok (s0, o2, ab) ->
+            dropped id s s0 o2).
+  { intros o2 HU. destruct (release_caps cfg_fixed tab (set_ans (aput id placeholder (s_ans s1)) s1)) as [[s2 o2']| |] eqn:E2; cbn [bind] in HU; try discriminate.
+    inversion HU; subst. pose proof (nod_release_caps _ _ _ _ _ E2) as N2. pose proof (aux_release_caps _ _ _ _ _ E2) as X2.
+    apply release_caps_inv in E2. destruct E2 as [C2 _]. destruct (core_ans _ _ C2) as (A2 & Qu2 & _). destruct (ndeliv_aux _ _ X2) as [N2' _].
+    unfold set_ans in *. cbn [s_ans s_queue s_ndeliv] in *.
+    split; [exact N2|]. split; [congruence|]. split; [left; congruence|]. split.
+    - intros a1 Ha. rewrite A2, aget_aput, Z.eqb_refl in Ha. inversion Ha; subst. left. reflexivity.
+    - intros b Hb. rewrite A2, aget_aput, A1. destruct (b =? id) eqn:Eb; [lia|reflexivity]. }
+  destruct pt as [e|t x].
+  - destruct (tget e (s_exp s1)) as [[xc w]|] eqn:Ee; [|right; right; apply UNK; exact H].
+    destruct (deliver_tri _ _ _ _ _ _ _ H) as [(j & _ & D)|S].
+    + left. exists j. split; [apply LD; exact D|]. unfold tgt_returned. rewrite PT. exact I.
+    + right; right. apply LS. exact S.
+  - cbn [fx24 cfg_fixed negb andb] in H. rewrite andb_false_r in H. destruct (t =? id) eqn:Et; [right; right; apply UNK; exact H|].
+    destruct (aget t (s_ans s1)) as [ta|] eqn:Eta; [|right; right; apply UNK; exact H].
+    destruct (a_fin ta) eqn:Ef; [right; right; apply UNK; exact H|].
+    destruct (a_ready ta) eqn:Er.
+    + destruct (a_err ta).
+      * right; right. apply LS. eapply reject_settled; eauto.
+      * destruct (deliver_tri _ _ _ _ _ _ _ H) as [(j & _ & D)|S].
+        -- left. exists j. split; [apply LD; exact D|]. unfold tgt_returned. rewrite PT. exists ta. rewrite <- A1. split; assumption.
+        -- right; right. apply LS. exact S.
+    + right; left. exists t, x. split; [exact PT|].
+      assert (HQ : Ok (set_queue (s_queue s1 ++ [id]) (set_ans (aput id (set_a_st (AQueued t x) (new_answer tab mok tag)) (s_ans s1)) s1), @nil output, false) = Ok (s0, o0, ab))
+        by (destruct (a_st ta); [discriminate| |]; exact H).
+      inversion HQ; subst. unfold enqueued, queued_as, others_same, set_queue, set_ans. cbn [s_ans s_queue s_ndeliv].
+      split; [reflexivity|]. split; [exact N1|]. split; [rewrite Q1; reflexivity|]. split.
+      * eexists. rewrite aget_aput, Z.eqb_refl. split; [reflexivity|]. split; reflexivity.
+      * split; [exists ta; rewrite <- A1; repeat split; assumption|].
+        intros b Hb. rewrite aget_aput, A1. destruct (b =? id) eqn:Eb; [lia|reflexivity].
+Qed.
